@@ -172,16 +172,24 @@ func buildIntrinsics() map[string]intrinsicFn {
 	m["verif:verifNondetString"] = func(fr *frame, a []value) value {
 		s := fr.r.nondet("string", labelArg(a, 0), SStr, "", "")
 		fr.r.assertPC("(str.in_re " + s.t + " " + reBytes + ")")
+		fr.r.assertPC("(<= (str.len " + s.t + ") 1073741824)")
+		return s
+	}
+	m["verif:verifNondetOpaque"] = func(fr *frame, a []value) value {
+		s := fr.r.nondet("string", labelArg(a, 0), SStr, "", "")
+		fr.r.assertPC("(<= (str.len " + s.t + ") 1073741824)")
 		return s
 	}
 	m["verif:verifNondetHeader"] = func(fr *frame, a []value) value {
 		s := fr.r.nondet("string", labelArg(a, 0), SStr, "", "")
 		fr.r.assertPC("(str.in_re " + s.t + " " + reHeader + ")")
+		fr.r.assertPC("(<= (str.len " + s.t + ") 1073741824)")
 		return s
 	}
 	m["verif:verifNondetBytes"] = func(fr *frame, a []value) value {
 		s := fr.r.nondet("bytes", labelArg(a, 0), SBytes, "", "")
 		fr.r.assertPC("(str.in_re " + s.t + " " + reBytes + ")")
+		fr.r.assertPC("(<= (str.len " + s.t + ") 1073741824)")
 		return s
 	}
 	m["verif:verifChoice"] = func(fr *frame, a []value) value {
@@ -224,6 +232,12 @@ func buildIntrinsics() map[string]intrinsicFn {
 			r.solver.Push()
 			r.solver.Assert(smtNot(c.t))
 			res := r.solver.Check()
+			if res == Unknown && !r.solver.dead {
+				// cross-solver fallback before giving up (z3-new, cvc5; one-shot on the full stack)
+				if fb := r.solver.CheckFallback("", 60); fb == Unsat {
+					res = Unsat
+				}
+			}
 			switch res {
 			case Sat:
 				v := violation{Kind: "assert", Msg: msg, Pos: shortPos(pos), Harness: r.h.name}
@@ -326,6 +340,7 @@ func buildIntrinsics() map[string]intrinsicFn {
 		fr.r.stubs[a[0].(string)] = it.v
 		return nil
 	}
+	m["verif:verifTicks"] = func(fr *frame, a []value) value { return int64(fr.r.ticks) }
 	m["verif:verifReplayFailures"] = func(fr *frame, a []value) value { return []value(nil) }
 
 	addSyncIntrinsics(m)
